@@ -34,7 +34,7 @@ def inputs(name):
         t = 0.011
     elif name == "area":
         area = box(-6, -6, 6, 6.5)
-    traces = gpd.GeoDataFrame(attrs, geometry=base, index=idx, crs=crs)
+    traces = gpd.GeoDataFrame(attrs, geometry=base, index=idx, crs=("EPSG:3067" if name == "crs_traces_only" else crs))
     areas = gpd.GeoDataFrame(geometry=[area], crs=("EPSG:3067" if name == "crs_area_only" else crs))
     return traces, areas, t
 
